@@ -235,6 +235,32 @@ pub use loader::path_loader;
 #[doc(hidden)]
 pub mod __verif {
     pub use crate::loader::safe_join;
+
+    use crate::compiler::instructions::Instruction;
+    use std::cell::RefCell;
+
+    type InstrHook = Box<dyn for<'a, 'b> FnMut(&'a Instruction<'b>)>;
+
+    thread_local! {
+        static INSTR_HOOK: RefCell<Option<InstrHook>> = const { RefCell::new(None) };
+    }
+
+    /// Installs (or removes) a per-thread observer that sees every instruction the
+    /// VM is about to execute, before the fuel tracker is consulted about it.
+    pub fn set_instruction_hook(hook: Option<InstrHook>) {
+        INSTR_HOOK.with(|h| *h.borrow_mut() = hook);
+    }
+
+    #[inline]
+    pub(crate) fn on_instruction(instr: &Instruction<'_>) {
+        INSTR_HOOK.with(|h| {
+            if let Ok(mut h) = h.try_borrow_mut() {
+                if let Some(f) = h.as_mut() {
+                    f(instr);
+                }
+            }
+        });
+    }
 }
 
 #[cfg(feature = "debug")]
